@@ -1,13 +1,447 @@
-/- C02 — first layer; see DESIGN.md §5 -/
-import UBidi.Model.Reorder
-import UBidi.Spec.UAX9
-import UBidi.Spec.Reorder
-namespace UBidi.Props.C02
-open UBidi
+/-
+  C02 — Paragraph segmentation, paragraph level (P1–P3) and FSI resolution.
 
-/-- the analysis of the empty text is empty and does not fail -/
-theorem empty_text (ds : DataSource) (d : Option Nat) :
-    (bidiInfo ds (Text.ofScalars []) d).levels = [] ∧ (bidiInfo ds (Text.ofScalars []) d).err = none := by
-  constructor <;> rfl
+  `computeInitialInfo ds t dflt split` is the Model of `compute_initial_info`
+  (/repo/src/lib.rs).  For every data source `ds`, every well-formed text `t`
+  and every forced level `dflt`:
+
+  * `C02_classes_length`, `C02_no_panic` (both modes),
+  * `C02_partition`  — P1: the paragraphs are exactly the pieces obtained by
+    cutting after every class-B character,
+  * `C02_level`      — P2/P3 on the characters of each paragraph,
+  * `C02_classes`, `C02_classes_uniform` — X5c as reported in the per-unit classes,
+  * `C02_single`     — single-paragraph mode.
+
+  The statements about classes and about panics need `FSIWidth`: a character
+  whose class is FSI occupies as many code units as U+2068 — the crate
+  overwrites `T::char_len(chars::FSI)` units whatever character carries the
+  class.  It holds for every data source that gives class FSI to U+2068 only
+  (`FSIWidth_of_only`).
+-/
+import UBidi.Lemmas.C02Main
+namespace UBidi.Props.C02
+open UBidi UBidi.Lemmas.C02
+
+/-! ### the notions used in the statements -/
+
+/-- the data source's class of every character of the text -/
+def raw (ds : DataSource) (t : Text) : List BidiClass := t.segs.map (fun s => ds.cls s.cp)
+
+/-- the characters of the text that start inside paragraph `p` -/
+def segsIn (t : Text) (p : ParaInfo) : List Seg :=
+  t.segs.filter (fun s => p.start ≤ s.start && s.start < p.stop)
+
+/-- the paragraphs `ps` tile `[a, e)`: the first starts at `a`, each is
+    non-empty, each starts where the previous one stops, the last stops at `e` -/
+def ParasFrom : Nat → List ParaInfo → Nat → Prop
+  | a, [], e => a = e
+  | a, p :: ps, e => p.start = a ∧ p.start < p.stop ∧ ParasFrom p.stop ps e
+
+/-- a character of class FSI is as long as U+2068 in the text's encoding -/
+def FSIWidth (ds : DataSource) (t : Text) : Prop :=
+  ∀ s ∈ t.segs, ds.cls s.cp = .FSI → s.len = t.enc.charLen Gen.fcFSI
+
+/-- `FSIWidth` holds whenever U+2068 is the only scalar value of class FSI. -/
+theorem FSIWidth_of_only (ds : DataSource) (t : Text) (hwf : t.WF)
+    (h : ∀ c, ds.cls c = .FSI → c = Gen.fcFSI) : FSIWidth ds t := by
+  intro s hs hc
+  rw [hwf.lens s hs, h s.cp hc]
+
+/-! ### consequences of `ParasFrom` in the words of the property -/
+
+theorem ParasFrom.nonempty : ∀ {ps : List ParaInfo} {a e : Nat}, ParasFrom a ps e → ∀ p ∈ ps, p.start < p.stop := by
+  intro ps
+  induction ps with
+  | nil => intro a e _ p hp; simp at hp
+  | cons q qs ih =>
+    intro a e h p hp
+    rcases List.mem_cons.1 hp with rfl | hp
+    · exact h.2.1
+    · exact ih h.2.2 p hp
+
+theorem ParasFrom.first {ps : List ParaInfo} {a e : Nat} (h : ParasFrom a ps e) :
+    (ps.head?.map (·.start)).getD a = a := by
+  cases ps with
+  | nil => rfl
+  | cons q qs => simp [h.1]
+
+theorem ParasFrom.last : ∀ {ps : List ParaInfo} {a e : Nat}, ParasFrom a ps e →
+    (ps.getLast?.map (·.stop)).getD a = e := by
+  intro ps
+  induction ps with
+  | nil => intro a e h; exact h
+  | cons q qs ih =>
+    intro a e h
+    cases qs with
+    | nil => simpa [ParasFrom] using h.2.2
+    | cons r rs =>
+      have := ih h.2.2
+      rw [List.getLast?_cons_cons]
+      cases hx : (r :: rs).getLast? with
+      | none => simp at hx
+      | some x => rw [hx] at this; simpa using this
+
+/-- consecutive paragraphs touch -/
+theorem ParasFrom.chain : ∀ {ps : List ParaInfo} {a e : Nat}, ParasFrom a ps e →
+    ∀ i, (h : i + 1 < ps.length) → (ps[i]'(by omega)).stop = (ps[i + 1]'h).start := by
+  intro ps
+  induction ps with
+  | nil => intro a e _ i h; simp at h
+  | cons q qs ih =>
+    intro a e h i hi
+    cases i with
+    | zero =>
+      cases qs with
+      | nil => simp at hi
+      | cons r rs => simpa using h.2.2.1.symm
+    | succ i => simpa using ih h.2.2 i (by simpa using hi)
+
+/-! ### the paragraphs of the Model, one at a time -/
+
+section
+variable (ds : DataSource) (t : Text) (dflt : Option Nat)
+
+/-- the list of paragraphs (as character lists) behind the Model's output -/
+theorem chunks_exist (hwf : t.WF) :
+    ∃ chunks : List (List Seg),
+      chunks.flatten = t.segs ∧
+      (computeInitialInfo ds t dflt true).paras = chunks.map (mkPara ds dflt) ∧
+      (computeInitialInfo ds t dflt true).flags.length = (computeInitialInfo ds t dflt true).paras.length ∧
+      (∀ c1 ch c2, chunks = c1 ++ ch :: c2 → IsPara ds ch ∧ (IsChunk ds ch ∨ c2 = [])) ∧
+      (FSIWidth ds t →
+        (computeInitialInfo ds t dflt true).classes = (chunks.map (chunkClasses ds)).flatten) := by
+  obtain ⟨done, cur, h1, h2, h3, h4, h5, h6⟩ := split_structure ds t dflt hwf
+  refine ⟨allChunks done cur, h1, h4, h5, ?_, h6⟩
+  intro c1 ch c2 heq
+  by_cases hcur : cur = []
+  · have hmem : ch ∈ done := by
+      have : ch ∈ allChunks done cur := by rw [heq]; simp
+      simpa [allChunks, hcur] using this
+    exact ⟨isPara_of_isChunk (h2 ch hmem), Or.inl (h2 ch hmem)⟩
+  · simp only [allChunks, hcur, if_false] at heq
+    by_cases hc2 : c2 = []
+    · subst hc2
+      have := List.append_inj_right' heq.symm (by simp)
+      simp only [List.cons.injEq, and_true] at this
+      subst this
+      exact ⟨isPara_of_noB hcur h3, Or.inr rfl⟩
+    · have hd : done = c1 ++ ch :: c2.dropLast := by
+        have := congrArg List.dropLast heq
+        rw [List.dropLast_concat] at this
+        rw [this, List.dropLast_append_of_ne_nil (by simp), List.dropLast_cons_of_ne_nil hc2]
+      have hmem : ch ∈ done := by rw [hd]; simp
+      exact ⟨isPara_of_isChunk (h2 ch hmem), Or.inl (h2 ch hmem)⟩
+
+/-- everything about one paragraph -/
+structure ParaCtx (out : InitialOut) (ch : List Seg) (p : ParaInfo) : Prop where
+  para : IsPara ds ch
+  ends : IsChunk ds ch ∨ p.stop = t.len
+  segs : ∃ X Y, t.segs = X ++ ch ++ Y ∧ SegsFrom 0 X p.start ∧ SegsFrom p.start ch p.stop ∧
+    SegsFrom p.stop Y t.len
+  level : p.level = Spec.paraLevel dflt (clsOf ds ch)
+  classes : FSIWidth ds t → ∃ A C, out.classes = A ++ expand ch (Spec.resolveFSI (clsOf ds ch)) ++ C ∧
+    A.length = p.start
+
+theorem isPara_ne_nil {ch : List Seg} (h : IsPara ds ch) : ch ≠ [] := by
+  obtain ⟨xs, b, rfl, _⟩ := h; simp
+
+theorem ctx_of_split (hwf : t.WF) (chunks : List (List Seg))
+    (hflat : chunks.flatten = t.segs)
+    (hpara : ∀ c1 ch c2, chunks = c1 ++ ch :: c2 → IsPara ds ch ∧ (IsChunk ds ch ∨ c2 = []))
+    (hcls : FSIWidth ds t →
+      (computeInitialInfo ds t dflt true).classes = (chunks.map (chunkClasses ds)).flatten)
+    (c1 : List (List Seg)) (ch : List Seg) (c2 : List (List Seg)) (heq : chunks = c1 ++ ch :: c2) :
+    ParaCtx ds t dflt (computeInitialInfo ds t dflt true) ch (mkPara ds dflt ch) := by
+  have hall : ∀ c ∈ chunks, IsPara ds c := by
+    intro c hc
+    obtain ⟨d1, d2, hd⟩ := List.append_of_mem hc
+    exact (hpara d1 c d2 hd).1
+  have htiles : SegsFrom 0 chunks.flatten t.len := by rw [hflat]; exact hwf.tiles
+  obtain ⟨hp, hend⟩ := hpara c1 ch c2 heq
+  have hne := isPara_ne_nil ds hp
+  have ht := htiles
+  rw [heq] at ht
+  simp only [List.flatten_append, List.flatten_cons] at ht
+  obtain ⟨a, t1, t2⟩ := (segsFrom_append _ _ _ _).1 ht
+  obtain ⟨b, t3, t4⟩ := (segsFrom_append _ _ _ _).1 t2
+  have hstart : (mkPara ds dflt ch).start = a := chunkStart_eq _ _ _ t3 hne
+  have hstop : (mkPara ds dflt ch).stop = b := chunkStop_eq _ _ _ t3 hne
+  have hA : ((c1.map (chunkClasses ds)).flatten).length = a := by
+    have := chunkClasses_length ds c1 0 a (fun c hc => hall c (by rw [heq]; simp [hc])) t1
+    omega
+  refine ⟨hp, ?_, ?_, rfl, ?_⟩
+  · rcases hend with h | h
+    · exact Or.inl h
+    · right
+      rw [hstop]; subst h
+      simpa [SegsFrom] using t4
+  · refine ⟨c1.flatten, c2.flatten, ?_, ?_, ?_, ?_⟩
+    · rw [← hflat, heq]; simp
+    · rw [hstart]; exact t1
+    · rw [hstart, hstop]; exact t3
+    · rw [hstop]; exact t4
+  · intro hf
+    refine ⟨(c1.map (chunkClasses ds)).flatten, (c2.map (chunkClasses ds)).flatten, ?_, ?_⟩
+    · rw [hcls hf, heq]; simp [chunkClasses]
+    · rw [hA, hstart]
+
+/-- every reported paragraph comes with its context -/
+theorem para_ctx (hwf : t.WF) : ∀ p ∈ (computeInitialInfo ds t dflt true).paras,
+    ∃ ch, ParaCtx ds t dflt (computeInitialInfo ds t dflt true) ch p := by
+  obtain ⟨chunks, h1, h2, _, h4, h5⟩ := chunks_exist ds t dflt hwf
+  intro p hp
+  rw [h2, List.mem_map] at hp
+  obtain ⟨ch, hch, rfl⟩ := hp
+  obtain ⟨c1, c2, heq⟩ := List.append_of_mem hch
+  exact ⟨ch, ctx_of_split ds t dflt hwf chunks h1 h4 h5 c1 ch c2 heq⟩
+
+/-- every character lies in a reported paragraph -/
+theorem seg_ctx (hwf : t.WF) : ∀ s ∈ t.segs, ∃ ch p, s ∈ ch ∧
+    ParaCtx ds t dflt (computeInitialInfo ds t dflt true) ch p := by
+  obtain ⟨chunks, h1, _, _, h4, h5⟩ := chunks_exist ds t dflt hwf
+  intro s hs
+  rw [← h1, List.mem_flatten] at hs
+  obtain ⟨ch, hch, hsch⟩ := hs
+  obtain ⟨c1, c2, heq⟩ := List.append_of_mem hch
+  exact ⟨ch, _, hsch, ctx_of_split ds t dflt hwf chunks h1 h4 h5 c1 ch c2 heq⟩
+
+theorem segsIn_eq {out : InitialOut} {ch : List Seg} {p : ParaInfo} (h : ParaCtx ds t dflt out ch p) :
+    segsIn t p = ch := by
+  obtain ⟨X, Y, h1, h2, h3, h4⟩ := h.segs
+  unfold segsIn
+  rw [h1]
+  exact filter_chunk X ch Y _ _ _ h2 h3 h4
+
+theorem parasFrom_map : ∀ (chunks : List (List Seg)) (a e : Nat), (∀ ch ∈ chunks, ch ≠ []) →
+    SegsFrom a chunks.flatten e → ParasFrom a (chunks.map (mkPara ds dflt)) e := by
+  intro chunks
+  induction chunks with
+  | nil => intro a e _ h; simpa [SegsFrom, ParasFrom] using h
+  | cons ch rest ih =>
+    intro a e hne h
+    simp only [List.flatten_cons] at h
+    obtain ⟨m, h1, h2⟩ := (segsFrom_append _ _ _ _).1 h
+    have hch := hne ch (by simp)
+    have hs : (mkPara ds dflt ch).start = a := chunkStart_eq _ _ _ h1 hch
+    have he : (mkPara ds dflt ch).stop = m := chunkStop_eq _ _ _ h1 hch
+    simp only [List.map_cons, ParasFrom]
+    refine ⟨hs, ?_, ?_⟩
+    · rw [hs, he]; exact segsFrom_lt_of_ne_nil _ _ _ h1 hch
+    · rw [he]; exact ih m e (fun c hc => hne c (by simp [hc])) h2
+
+end
+
+/-! ### the theorems -/
+
+variable (ds : DataSource) (t : Text) (dflt : Option Nat)
+
+/-- Both modes: one class per code unit. -/
+theorem C02_classes_length (hwf : t.WF) (split : Bool) :
+    (computeInitialInfo ds t dflt split).classes.length = t.len :=
+  classes_length ds t dflt split hwf
+
+/-- Both modes: the X5c write never indexes out of range. -/
+theorem C02_no_panic (hwf : t.WF) (hfsi : FSIWidth ds t) (split : Bool) :
+    (computeInitialInfo ds t dflt split).err = none :=
+  no_panic ds t dflt split hwf hfsi
+
+/-- P1: the reported paragraphs are exactly the pieces obtained by cutting the
+    text after every class-B character: they tile `[0, t.len)` (`ParasFrom`:
+    non-empty, contiguous, from 0 to the length), each ends at the end of the
+    text or right after a class-B character, no other character of a paragraph
+    has class B, and there is one flags record per paragraph. -/
+theorem C02_partition (hwf : t.WF) :
+    let ps := (computeInitialInfo ds t dflt true).paras
+    ParasFrom 0 ps t.len ∧
+    (∀ p ∈ ps, p.stop = t.len ∨ ∃ s ∈ t.segs, s.start + s.len = p.stop ∧ ds.cls s.cp = .B) ∧
+    (∀ p ∈ ps, ∀ s ∈ t.segs, p.start ≤ s.start → s.start + s.len < p.stop → ds.cls s.cp ≠ .B) ∧
+    ps.length = (computeInitialInfo ds t dflt true).flags.length := by
+  intro ps
+  refine ⟨?_, ?_, ?_, ?_⟩
+  · obtain ⟨chunks, h1, h2, _, h4, _⟩ := chunks_exist ds t dflt hwf
+    show ParasFrom 0 (computeInitialInfo ds t dflt true).paras t.len
+    rw [h2]
+    apply parasFrom_map
+    · intro ch hch
+      obtain ⟨c1, c2, heq⟩ := List.append_of_mem hch
+      exact isPara_ne_nil ds (h4 c1 ch c2 heq).1
+    · rw [h1]; exact hwf.tiles
+  · intro p hp
+    obtain ⟨ch, hc⟩ := para_ctx ds t dflt hwf p hp
+    rcases hc.ends with h | h
+    · right
+      obtain ⟨xs, b, rfl, _, hb⟩ := h
+      obtain ⟨X, Y, h1, _, h3, _⟩ := hc.segs
+      refine ⟨b, by rw [h1]; simp, ?_, hb⟩
+      have := chunkStop_eq _ _ _ h3 (by simp)
+      rw [chunkStop_snoc] at this; exact this
+    · exact Or.inl h
+  · intro p hp s hs h1 h2
+    obtain ⟨ch, hc⟩ := para_ctx ds t dflt hwf p hp
+    obtain ⟨X, Y, e1, t1, t2, t3⟩ := hc.segs
+    rw [e1] at hs
+    have hin : s ∈ ch := by
+      rcases List.mem_append.1 hs with hs | hs
+      · rcases List.mem_append.1 hs with hs | hs
+        · have := segsFrom_mem _ _ _ t1 s hs; omega
+        · exact hs
+      · have := segsFrom_mem _ _ _ t3 s hs; omega
+    obtain ⟨xs, b, rfl, hxs⟩ := hc.para
+    rcases List.mem_append.1 hin with hin | hin
+    · exact hxs s hin
+    · simp only [List.mem_singleton] at hin
+      subst hin
+      have := chunkStop_eq _ _ _ t2 (by simp)
+      rw [chunkStop_snoc] at this; omega
+  · obtain ⟨_, _, _, h3, _, _⟩ := chunks_exist ds t dflt hwf
+    exact h3.symm
+
+/-- `C02_partition` once more, in the words of the property: every paragraph
+    is non-empty, the first starts at 0, consecutive paragraphs touch, the last
+    ends at the length of the text. -/
+theorem C02_partition_explicit (hwf : t.WF) :
+    let ps := (computeInitialInfo ds t dflt true).paras
+    (∀ p ∈ ps, p.start < p.stop) ∧
+    (ps.head?.map (·.start)).getD 0 = 0 ∧
+    (∀ i, (h : i + 1 < ps.length) → (ps[i]'(by omega)).stop = (ps[i + 1]'h).start) ∧
+    (ps.getLast?.map (·.stop)).getD 0 = t.len := by
+  have h := (C02_partition ds t dflt hwf).1
+  exact ⟨h.nonempty, h.first, h.chain, h.last⟩
+
+/-- P2/P3: the level of a paragraph is the forced level if there is one, else 1
+    if the first L/R/AL character outside isolates is R or AL, else 0 — computed
+    by the Spec on the classes of the paragraph's characters. -/
+theorem C02_level (hwf : t.WF) : ∀ p ∈ (computeInitialInfo ds t dflt true).paras,
+    p.level = Spec.paraLevel dflt ((segsIn t p).map (fun s => ds.cls s.cp)) := by
+  intro p hp
+  obtain ⟨ch, hc⟩ := para_ctx ds t dflt hwf p hp
+  rw [segsIn_eq ds t dflt hc]
+  exact hc.level
+
+/-- X5c as reported: reading the class at the first unit of every character of
+    a paragraph gives the paragraph's classes with every FSI resolved by the
+    Spec (RLI / LRI by the first strong character before the matching PDI, FSI
+    if there is none), all other characters keeping their class. -/
+theorem C02_classes (hwf : t.WF) (hfsi : FSIWidth ds t) :
+    ∀ p ∈ (computeInitialInfo ds t dflt true).paras,
+      (segsIn t p).map (fun s => (computeInitialInfo ds t dflt true).classes.getD s.start .ON)
+        = Spec.resolveFSI ((segsIn t p).map (fun s => ds.cls s.cp)) := by
+  intro p hp
+  obtain ⟨ch, hc⟩ := para_ctx ds t dflt hwf p hp
+  rw [segsIn_eq ds t dflt hc]
+  obtain ⟨A, C, h1, h2⟩ := hc.classes hfsi
+  obtain ⟨X, Y, _, _, t2, _⟩ := hc.segs
+  rw [h1]
+  exact expand_read ch _ A C _ (by rw [h2]; exact t2) (resolveFSI_length_para hc.para).symm
+
+/-- All units of a character carry the same class (both modes). -/
+theorem C02_classes_uniform (hwf : t.WF) (hfsi : FSIWidth ds t) (split : Bool) :
+    ∀ s ∈ t.segs, ∀ j, j < s.len →
+      (computeInitialInfo ds t dflt split).classes.getD (s.start + j) .ON
+        = (computeInitialInfo ds t dflt split).classes.getD s.start .ON := by
+  intro s hs j hj
+  cases split with
+  | true =>
+    obtain ⟨ch, p, hsch, hc⟩ := seg_ctx ds t dflt hwf s hs
+    obtain ⟨A, C, h1, h2⟩ := hc.classes hfsi
+    obtain ⟨X, Y, _, _, t2, _⟩ := hc.segs
+    rw [h1]
+    exact expand_uniform ch _ A C _ (by rw [h2]; exact t2) (resolveFSI_length_para hc.para).symm s hsch j hj
+  | false =>
+    have h := (single_structure ds t dflt hwf).2 hfsi
+    have hl : t.segs.length = (cRun dflt (clsOf ds t.segs)).cls.length := by
+      rw [cRun_cls_length]; simp
+    have := expand_uniform t.segs _ [] [] t.len hwf.tiles hl s hs j hj
+    rw [h]; simpa using this
+
+/-! ### single-paragraph mode -/
+
+/-- a class list without separator except possibly at the very end is a
+    separator-free body and a tail -/
+theorem tail_split (cs : List BidiClass) (h : ∀ c ∈ cs.dropLast, c ≠ .B) :
+    ∃ xs tl, cs = xs ++ tl ∧ (∀ c ∈ xs, c ≠ .B) ∧ IsTail tl := by
+  by_cases hne : cs = []
+  · exact ⟨[], [], by simp [hne], by simp, Or.inl rfl⟩
+  · by_cases hl : cs.getLast hne = .B
+    · exact ⟨cs.dropLast, [.B], by rw [← hl]; exact (List.dropLast_concat_getLast hne).symm, h, Or.inr rfl⟩
+    · refine ⟨cs, [], by simp, ?_, Or.inl rfl⟩
+      intro c hc
+      rw [← List.dropLast_concat_getLast hne] at hc
+      rcases List.mem_append.1 hc with hc | hc
+      · exact h c hc
+      · simp only [List.mem_singleton] at hc; rw [hc]; exact hl
+
+theorem cRun_tail (l0 : Option Nat) (xs tl : List BidiClass) (h : IsTail tl) :
+    (cRun l0 (xs ++ tl)).lvl = (cRun l0 xs).lvl ∧ (cRun l0 (xs ++ tl)).cls = (cRun l0 xs).cls ++ tl := by
+  rcases h with rfl | rfl
+  · simp
+  · rw [cRun_snoc]; exact ⟨rfl, rfl⟩
+
+/-- Single-paragraph mode, level: if the text has no class-B character except
+    possibly its last one, the level is the Spec's level of the whole text. -/
+theorem C02_single_level (hwf : t.WF) (hB : ∀ c ∈ (raw ds t).dropLast, c ≠ .B) :
+    (computeInitialInfo ds t dflt false).lastLevel = Spec.paraLevel dflt (raw ds t) := by
+  obtain ⟨xs, tl, h1, h2, h3⟩ := tail_split (raw ds t) hB
+  have hr : clsOf ds t.segs = raw ds t := rfl
+  rw [(single_structure ds t dflt hwf).1, hr, h1, (cRun_tail dflt xs tl h3).1]
+  exact cRun_level_spec dflt xs h2 tl h3
+
+/-- Single-paragraph mode, classes: same, for the classes read at the first
+    unit of every character. -/
+theorem C02_single_classes (hwf : t.WF) (hfsi : FSIWidth ds t) (hB : ∀ c ∈ (raw ds t).dropLast, c ≠ .B) :
+    t.segs.map (fun s => (computeInitialInfo ds t dflt false).classes.getD s.start .ON)
+      = Spec.resolveFSI (raw ds t) := by
+  obtain ⟨xs, tl, h1, h2, h3⟩ := tail_split (raw ds t) hB
+  have hr : clsOf ds t.segs = raw ds t := rfl
+  have hl : t.segs.length = (cRun dflt (clsOf ds t.segs)).cls.length := by
+    rw [cRun_cls_length]; simp
+  have := expand_read t.segs (cRun dflt (clsOf ds t.segs)).cls [] [] t.len hwf.tiles hl
+  rw [(single_structure ds t dflt hwf).2 hfsi]
+  simp only [List.nil_append, List.append_nil] at this
+  rw [this, hr, h1, (cRun_tail dflt xs tl h3).2]
+  exact cRun_cls_spec dflt xs h2 tl h3
+
+theorem C02_single (hwf : t.WF) (hfsi : FSIWidth ds t) (hB : ∀ c ∈ (raw ds t).dropLast, c ≠ .B) :
+    (computeInitialInfo ds t dflt false).lastLevel = Spec.paraLevel dflt (raw ds t) ∧
+    t.segs.map (fun s => (computeInitialInfo ds t dflt false).classes.getD s.start .ON)
+      = Spec.resolveFSI (raw ds t) :=
+  ⟨C02_single_level ds t dflt hwf hB, C02_single_classes ds t dflt hwf hfsi hB⟩
+
+/-! ### non-vacuity: a concrete text meets the hypotheses, with non-trivial results -/
+
+/-- `FSI א PDI ⏎ a FSI RLI b PDI ב` as a `&str` (22 bytes, two paragraphs) -/
+def exText : Text :=
+  Text.ofScalars [0x2068, 0x5D0, 0x2069, 0x0A, 0x61, 0x2068, 0x2067, 0x62, 0x2069, 0x5D1]
+
+theorem exText_wf : exText.WF :=
+  ⟨by simp [exText, Text.ofScalars, Text.layout, Text.totalLen, SegsFrom, Enc.charLen, utf8Len], by decide⟩
+
+theorem exText_fsi : FSIWidth hardcoded exText := by
+  unfold FSIWidth; decide +kernel
+
+/-- test (labelled): the hypotheses of every theorem above hold for `exText`
+    with the crate's own tables, and the conclusions are not trivial there -/
+example : exText.WF ∧ FSIWidth hardcoded exText := ⟨exText_wf, exText_fsi⟩
+
+/-- test: two paragraphs; the second has level 0 although it contains R after
+    an unclosed FSI; the first FSI reports RLI, the second one RLI as well
+    (first strong after the nested RLI…PDI is R) -/
+example : (computeInitialInfo hardcoded exText none true).paras =
+    [{ start := 0, stop := 9, level := 0 }, { start := 9, stop := 22, level := 0 }] := by
+  decide +kernel
+
+example : (segsIn exText { start := 9, stop := 22, level := 0 }).map
+      (fun s => (computeInitialInfo hardcoded exText none true).classes.getD s.start .ON) =
+    [.L, .RLI, .RLI, .L, .PDI, .R] := by
+  decide +kernel
+
+/-- test: a text for `C02_single` (no separator before the end) -/
+def exSingle : Text := Text.ofScalars [0x2068, 0x61, 0x2069, 0x5D0, 0x0A]
+
+example : exSingle.WF ∧ FSIWidth hardcoded exSingle ∧ (∀ c ∈ (raw hardcoded exSingle).dropLast, c ≠ .B) :=
+  ⟨⟨by simp [exSingle, Text.ofScalars, Text.layout, Text.totalLen, SegsFrom, Enc.charLen, utf8Len], by decide⟩,
+   by unfold FSIWidth; decide +kernel, by decide +kernel⟩
+
+example : (computeInitialInfo hardcoded exSingle none false).lastLevel = 1 := by decide +kernel
 
 end UBidi.Props.C02
